@@ -217,6 +217,8 @@ Qed.
 
 End Lists.
 
+Arguments zlen_nil : clear implicits.
+
 Lemma zlen_map {A B} (f : A -> B) l : zlen (map f l) = zlen l.
 Proof. unfold zlen; rewrite map_length; reflexivity. Qed.
 
